@@ -253,3 +253,50 @@ package ssh
 //@ canary ensures implies(result == nil && old(packet[0]) == 91, ghost(&ch.remoteWin, granted) == old(ghost(&ch.remoteWin, granted)))
 //@ canary ensures implies(result == nil && old(packet[0]) == 93, ghost(&ch.remoteWin, granted) == old(ghost(&ch.remoteWin, granted)))
 //@ canary ensures !(result == nil && old(packet[0]) == 91)
+
+// ---- C29: peer values of the key exchanges ----
+
+// Diffie-Hellman: the peer's value must lie in (1, p-1).
+//@ func (*dhGroup).diffieHellman
+//@ props C29
+//@ nonnil theirPublic myPrivate
+//@ assume_global bigOne != nil && bv(bigOne) == 1
+//@ requires group.p != nil && group.pMinus1 != nil
+//@ ensures iff(result1 != nil, bv(theirPublic) <= 1 || bv(theirPublic) >= bv(group.pMinus1))
+//@ ensures implies(result1 != nil, result0 == nil)
+//@ ensures implies(result1 == nil, result0 != nil && newobj(result0) && bv(result0) == spec.modexp(bv(theirPublic), bv(myPrivate), bv(group.p)))
+//@ ensures bv(theirPublic) == old(bv(theirPublic)) && bv(group.p) == old(bv(group.p))
+//@ canary ensures result1 == nil
+
+// ECDH: the peer's point must not be the point at infinity, must have
+// coordinates below the field prime and must be on the curve.
+//@ func validateECPublicKey
+//@ props C29
+//@ nonnil x y
+//@ requires curve != nil
+//@ ensures iff(result, !(bv(x) == 0 && bv(y) == 0) && bv(x) < spec.curvep(curve) && bv(y) < spec.curvep(curve) && spec.oncurve(curve, bv(x), bv(y)))
+//@ canary ensures result
+
+// DH group exchange: the server's choice among its groups (OpenSSH dh.c choose_dh):
+// within [MinBits, MaxBits]; the smallest group of at least PreferredBits if
+// there is one, otherwise the largest.
+//@ func supportedDHKEXGroups
+//@ note package-level variable holding a function (sync.OnceValue): assumed to return groups with moduli sizes in 1..65536 bits and non-nil moduli
+//@ pure
+//@ ensures forall(i, 0, len(result), 1 <= result[i].size && result[i].size <= 65536 && result[i].p != nil)
+
+//@ pred inr(g, k, req) = req.MinBits <= g[k].size && g[k].size <= req.MaxBits
+//@ pred good(sz, bs, want) = ite(bs >= want, sz < want || sz >= bs, sz <= bs)
+//@ pred chosen(g, n, req, b, bs) = bs > 0 && exists(c, 0, n, inr(g, c, req) && g[c].size == bs && g[c].p == b) &&
+//@ |   forall(j, 0, n, implies(inr(g, j, req), good(g[j].size, bs, req.PreferredBits)))
+
+//@ func chooseDH
+//@ props C29
+//@ modifies heap
+//@ ensures iff(result1 == nil, exists(k, 0, len(t5), inr(t5, k, req)))
+//@ ensures implies(result1 == nil, exists(c, 0, len(t5), inr(t5, c, req) && t5[c].p == result0 && forall(j, 0, len(t5), implies(inr(t5, j, req), good(t5[j].size, t5[c].size, req.PreferredBits)))))
+//@ ensures implies(result1 != nil, result0 == nil)
+//@ loop 1 invariant -1 <= rangeindex && rangeindex < len(t5) && bestSize >= 0
+//@ loop 1 invariant implies(bestSize == 0, forall(k, 0, rangeindex + 1, !inr(t5, k, req)))
+//@ loop 1 invariant implies(bestSize != 0, chosen(t5, rangeindex + 1, req, best, bestSize))
+//@ canary ensures result1 == nil
